@@ -176,3 +176,26 @@ class concat_step:
 
     def post_loop_goes_on(flow):
         return flow == 'next'
+
+
+@contract(GEN + 'Generic.concat', props=['C19'], name='concat_tail')
+class concat_tail:
+    """After the loop (tail contract: the statements that follow `for content in contents`, from an arbitrary state): the function
+    returns exactly the document kept by the last iteration and the very list of pairs the loop filled -- nothing is dropped, added
+    or reordered on the way out; only a state without any import (no fragment) is refused."""
+    tail = 'for content in contents'
+
+    def inputs(g):
+        has_doc = g.choice('document', ['none', 'some'])
+        doc = None if has_doc == 'none' else mk_counted_document(g, 0)
+        indexes = g.mlist('indexes', lambda e: (e.int('lo'), e.int('hi')))
+        return {'cls': Generic, 'contents': [], 'separator': '\n', 'raw_kern': g.str_sym('raw_kern', ['', '\n**kern\n']), 'document': doc,
+                'indexes': indexes, 'low_index': g.int('low_index'), 'high_index': g.int('high_index'), '_doc': doc, '_pairs': indexes}
+
+    modifies = ()
+
+    def raises(doc):
+        return {'Exception': doc is None}
+
+    def post_returns_what_the_loop_left(result, doc, pairs):
+        return conj(result[0] is doc, result[1] is pairs)
